@@ -138,7 +138,7 @@ theorem creatorCreate_shape (c : Cfg) (st : Store) (key val : Bytes) (rev : Nat)
       · right; simp
       · split
         · exact doCommit_cas_put c _ _ _ _ _ _
-        · right; simp
+        · right; simp [tombAbove_ne_ok]
   | ok => exact h0
   | notFound => exact h0
   | uncertain => exact h0
